@@ -369,7 +369,8 @@ def near_structure(ctx: Ctx, py: PyProgram, near: set[str]) -> None:
     from ..cfg import build_py
     g = build_py(enc)
     norm = [n.id for n in g.stmt_nodes() if _calls(n.ast, "_normalize_near_control_flow")]
-    encs = [n.id for n in g.stmt_nodes() if _calls(n.ast, "encode", recv_not={"self"}) and _mentions(n.ast, "instr")]
+    cached = {t.id for a in ast.walk(enc) if isinstance(a, ast.Assign) and "instructions_cache" in unparse(a.value) for t in a.targets if isinstance(t, ast.Name)}   # locals bound to the pass-one instruction
+    encs = [n.id for n in g.stmt_nodes() if isinstance(n.ast, ast.AST) and any(isinstance(c, ast.Call) and isinstance(c.func, ast.Attribute) and c.func.attr == "encode" and isinstance(c.func.value, ast.Name) and c.func.value.id in cached for c in _walk_shallow(n.ast))]
     if not encs:
         raise AnalysisError("_encode_statement: instr.encode(...) call not found")
     for e in encs:
@@ -447,7 +448,10 @@ def passes(ctx: Ctx, py: PyProgram) -> None:
         if flag != want:
             ctx.violation("C10.4/location", key_of(SC_ASM_PY, f"Assembler.{f['fn'].name}", "first_pass flag"), f"{f['fn'].name} calls _apply_location with first_pass={flag}", f"{SC_ASM_PY}:{c.lineno}")
         # the pointer read `X[current_section]` used as the statement address must come after the call in the loop body
-        reads = [s for s in ast.walk(f["loop"]) if isinstance(s, ast.Assign) and isinstance(s.value, ast.Subscript) and unparse(s.value.slice) == "current_section"]
+        secvar = unparse(c.args[2]) if len(c.args) > 2 else "?"      # the variable handed to _apply_location as the current section
+        ptrs = unparse(c.args[1]) if len(c.args) > 1 else "?"        # ... and the pointer table it updates
+        f["secvar"], f["ptrs"] = secvar, ptrs
+        reads = [s for s in ast.walk(f["loop"]) if isinstance(s, ast.Assign) and isinstance(s.value, ast.Subscript) and unparse(s.value.slice) == secvar and unparse(s.value.value) == ptrs]
         for rd in reads:
             if rd.lineno < c.lineno:
                 ctx.violation("C10.4/location", key_of(SC_ASM_PY, f"Assembler.{f['fn'].name}", "pointer read before _apply_location"), "the statement address is read before SECTION/.ORG of the same line is applied", f"{SC_ASM_PY}:{rd.lineno}")
@@ -478,8 +482,11 @@ def passes(ctx: Ctx, py: PyProgram) -> None:
     inc2 = [s for s in ast.walk(facts["pass2"]["loop"]) if isinstance(s, ast.AugAssign) and isinstance(s.op, ast.Add)]
     if len(inc1) != 1 or len(inc2) != 1:
         raise AnalysisError("pass loops: expected exactly one pointer increment each")
-    if unparse(inc1[0].target).split("[")[-1] != unparse(inc2[0].target).split("[")[-1]:
-        ctx.violation("C10.4/increment", key_of(SC_ASM_PY, "Assembler._first_pass/_second_pass", "increment target"), f"pointer increments index differently: {unparse(inc1[0].target)} vs {unparse(inc2[0].target)}", f"{SC_ASM_PY}:{inc2[0].lineno}")
+    for tag, inc in (("pass1", inc1[0]), ("pass2", inc2[0])):
+        f = facts[tag]
+        want = f"{f.get('ptrs')}[{f.get('secvar')}]"
+        if "secvar" in f and unparse(inc.target) != want:
+            ctx.violation("C10.4/increment", key_of(SC_ASM_PY, f"Assembler.{f['fn'].name}", "increment target"), f"{f['fn'].name} advances `{unparse(inc.target)}`, not the pointer `{want}` it read the statement address from", f"{SC_ASM_PY}:{inc.lineno}")
     if not (isinstance(inc2[0].value, ast.Call) and unparse(inc2[0].value.func) == "len"):
         ctx.violation("C10.4/increment", key_of(SC_ASM_PY, "Assembler._second_pass", "increment is not len(emitted)"), f"pass two advances by {unparse(inc2[0].value)}, not by the number of bytes it emitted", f"{SC_ASM_PY}:{inc2[0].lineno}")
     else:
@@ -494,7 +501,16 @@ def passes(ctx: Ctx, py: PyProgram) -> None:
     if k1 is None or k2 is None or len(k1.args) < 2 or len(k2.args) < 2:
         raise AnalysisError("pass loops: _get_statement_size / _encode_statement calls with a key argument not found")
     key1, key2 = unparse(k1.args[1]), unparse(k2.args[1])
-    ctx.extra["handoff_key"] = {"pass1": key1, "pass2": key2, "resolved1": _resolve_in_loop(facts["pass1"]["loop"], k1.args[1]), "resolved2": _resolve_in_loop(facts["pass2"]["loop"], k2.args[1])}
+    def _role(tag: str, knode: ast.AST) -> str:
+        # the loop index and the loop element are named by role, so that the two functions' own names for them do not matter
+        lp_ = facts[tag]["loop"]
+        txt = _resolve_in_loop(lp_, knode)
+        if isinstance(lp_.target, ast.Tuple):
+            for role, el in zip(("<index>", "<line>"), lp_.target.elts):
+                if isinstance(el, ast.Name):
+                    txt = re.sub(rf"\b{re.escape(el.id)}\b", role, txt)
+        return txt
+    ctx.extra["handoff_key"] = {"pass1": key1, "pass2": key2, "resolved1": _role("pass1", k1.args[1]), "resolved2": _role("pass2", k2.args[1])}
     if ctx.extra["handoff_key"]["resolved1"] != ctx.extra["handoff_key"]["resolved2"]:
         ctx.violation("C10.4/cache-key", key_of(SC_ASM_PY, "Assembler._first_pass/_second_pass", "hand-off key differs"), f"pass one caches built instructions under `{key1}`, pass two looks them up under `{key2}`", f"{SC_ASM_PY}:{k2.lineno}")
     for tag, key, knode in (("pass1", key1, k1.args[1]), ("pass2", key2, k2.args[1])):
